@@ -40,6 +40,9 @@ GRAPHS = {
     # one-way ring 0->1->3->2->0 with a two-way shortcut 0<->3
     1: dict(xy=XY0, edges=[(0, 1), (1, 3), (3, 2), (2, 0), (0, 3), (3, 0)],
             sym=[(0, 1), (1, 3), (0, 3), (3, 2)]),
+    # two-way ring with a PARALLEL edge 2->0 (MultiDiGraph key 1): two spatial-index entries share one link id
+    2: dict(xy=XY0, edges=[(0, 1), (1, 0), (1, 3), (3, 1), (3, 2), (2, 3), (2, 0), (0, 2)],
+            sym=[(0, 1), (1, 3), (3, 2), (2, 0)], parallel=[(2, 0)]),
 }
 G = GRAPHS[GRAPH]
 EDGES = G["edges"]
@@ -62,8 +65,21 @@ def _npaths(a, b):
     return 1 if u == v else len(list(nx.all_simple_paths(_DG, u, v)))
 
 
-# the 16 pairs with the most alternative inner paths (ties: lexicographic), so that the search has a real choice
-PAIRS = sorted([(a, b) for a in LINK_IDS for b in LINK_IDS if a != b], key=lambda ab: (-_npaths(*ab), ab))[:16]
+def _rev(a):
+    u, v = a.split("-")
+    return f"{v}-{u}"
+
+
+# link pairs: the ones with the most alternative inner paths (the search has a real choice), then adjacent links
+# (origin link ends where the destination link starts: empty inner path), opposite directions of one street, and more
+_ALL = sorted([(a, b) for a in LINK_IDS for b in LINK_IDS if a != b], key=lambda ab: (-_npaths(*ab), ab))
+_ADJ = [ab for ab in _ALL if ab[0].split("-")[1] == ab[1].split("-")[0] and ab[1] != _rev(ab[0])]
+_OPP = [ab for ab in _ALL if ab[1] == _rev(ab[0])]
+PAIRS = []
+for ab in _ALL[:5] + _ADJ[:2] + _OPP[:1] + _ALL[5:]:
+    if ab not in PAIRS:
+        PAIRS.append(ab)
+PAIRS = PAIRS[:16]
 O_LINK, D_LINK = PAIRS[PAIR % len(PAIRS)]
 
 
@@ -72,7 +88,13 @@ def _graph(L, S):
     for n, (lat, lon) in G["xy"].items():
         g.add_node(n, y=lat, x=lon)
     for (u, v) in EDGES:
-        g.add_edge(u, v, length=L[(u, v)], speed_kmph=S[(u, v)])
+        if (u, v) in SYM:
+            g.add_edge(u, v, length=L[(u, v)], speed_kmph=S[(u, v)])
+        else:
+            # no speed label: hive assigns default_speed_kmph (40 = BASE_S) and derives the travel time itself
+            g.add_edge(u, v, length=L[(u, v)])
+    for (u, v) in G.get("parallel", ()):
+        g.add_edge(u, v, length=L[(u, v)] + 7)
     return g
 
 
@@ -130,6 +152,9 @@ def h_fastest(l0: int, l1: int, l2: int, l3: int, k: int) -> bool:
     net, L, S = b
     o = EntityPosition(O_LINK, net.link_helper.links[O_LINK].start)
     d = EntityPosition(D_LINK, net.link_helper.links[D_LINK].end)
+    # an earlier query towards another destination on the same network instance must not influence this one
+    w_o, w_d = PAIRS[(PAIR + 3) % len(PAIRS)]
+    net.route(EntityPosition(w_d, net.link_helper.links[w_d].start), EntityPosition(w_o, net.link_helper.links[w_o].end))
     route = net.route(o, d)  # ---- real code
     if len(route) < 2:
         return False
@@ -184,7 +209,7 @@ def h_connected(l0: int, l1: int, l2: int, l3: int, k: int, oi: int, di: int) ->
 
 # ------------------------------------------------------------------------------------- snapping / haversine
 _SNAP_CANDS = []
-for _lid in LINK_IDS[:4]:
+for _lid in (LINK_IDS[:2] + LINK_IDS[-2:]):
     _ln = h3.h3_line(_net0.link_helper.links[_lid].start, _net0.link_helper.links[_lid].end)
     _mid = _ln[len(_ln) // 2]
     _SNAP_CANDS += [_ln[0], _mid, _ln[-1]] + sorted(h3.k_ring(_mid, 3) - set(_ln))[:3] + [sorted(h3.k_ring(_mid, 40) - h3.k_ring(_mid, 39))[0]]
